@@ -154,6 +154,9 @@ class FrameItem(EFLRItem):
             index_data = index_data.astype(np.int64)
 
         diff = np.diff(index_data)
+        if np.isnan(diff).any():
+            return None, None  # a missing (NaN) sample: the rows are not uniformly spaced and have no direction
+
         diff_unique = np.unique(diff)
 
         if (diff_unique == 0).all():
